@@ -51,6 +51,8 @@ def ops(tier: str) -> List[tuple]:
             kw = {"on_ms": on, "off_ms": off, "times": times}
             out.append(_op("beep", *([] if f is None else [f]), **kw))
     out.append(_op("beep"))
+    for times in (255, 256, 257, 300, 513):
+        out.append(_op("beep", 1000, on_ms=1, off_ms=0, times=times))
     for s, e in ((200, 800), (800, 200), (500, 500), (0, 300), (-10, 50), (100.5, 101.5), (400, 0), (300, -20)):
         for d, steps in ((100, 10), (0, 5), (20, 12), (100, 8), (50, 1), (30, 0), (30, -1), (255, 10), (4, 10), (2.5, 7)):
             if (s, e) in ((500, 500), (-10, 50), (100.5, 101.5), (300, -20)) and steps not in (10, 1, 0):
@@ -58,6 +60,10 @@ def ops(tier: str) -> List[tuple]:
             out.append(_op("sweep", s, e, duration_ms=d, steps=steps))
     for name in MELODIES:
         out.append(_op("melody", name))
+        # names are case-insensitive: every spelling plays the same tune
+        for spelled in (name.capitalize(), name.upper(), name.title()):
+            if spelled != name:
+                out.append(_op("melody", spelled))
     for tempo in (-1, 0, 60, 240, 97, 37.5, 112.5, 0.5, 225 / 2):
         out.append(_op("melody", "notify", tempo=tempo))
         out.append(_op("melody", "error", tempo=tempo))
@@ -68,6 +74,8 @@ def render(op, mode: str, feed: List[int], pre: List[str], recv: str = "bz") -> 
     name, args, kwargs = op
 
     def val(v):
+        if isinstance(v, dict):
+            return v["self"].replace("{n}", recv)  # an expression over the buzzer's own getters, evaluated before the call
         if isinstance(v, str):
             return json.dumps(v)
         if mode == "lit":
@@ -229,7 +237,52 @@ def _vary(op):
     return (name, [v(a) for a in args], {k: v(val, k) for k, val in kwargs.items()})
 
 
+def _resolve_self(op, st):
+    """Python evaluates the arguments before the call: getter expressions see the state the buzzer had BEFORE it."""
+    name, args, kwargs = op
+
+    def value(v):
+        if isinstance(v, dict):
+            text = v["self"].replace("{n}.get_state()", repr(st["cur"] > 0)).replace("{n}.get_frequency()", repr(float(st["cur"]))).replace("{n}.get_last_frequency()", repr(float(st["last"])))
+            return eval(text, {"__builtins__": {}}, {})  # noqa: S307 - our own arithmetic over three numbers
+        return v
+
+    return (name, [value(a) for a in args], {k: value(v) for k, v in kwargs.items()})
+
+
+SELF_FIRST = [("play_tone", [120], {}), ("play_tone", [700, 10], {}), ("stop", [], {}), ("beep", [600], {"on_ms": 5, "off_ms": 0, "times": 1}), ("play_tone", [300.5], {})]
+SELF_OPS = [
+    ("play_tone", [660], {"duration_ms": {"self": "200 if {n}.get_last_frequency() > 500 else 50"}}),
+    ("play_tone", [880, {"self": "400 if {n}.get_state() else 30"}], {}),
+    ("play_tone", [700, {"self": "{n}.get_frequency() + 5"}], {}),
+    ("play_tone", [{"self": "{n}.get_last_frequency() + 100"}], {}),
+    ("play_tone", [{"self": "{n}.get_last_frequency() * 2"}, {"self": "{n}.get_last_frequency() / 10"}], {}),
+    ("beep", [{"self": "{n}.get_last_frequency() + 100"}], {"on_ms": 5, "off_ms": 0, "times": 2}),
+    ("beep", [500], {"on_ms": {"self": "10 if {n}.get_state() else 3"}, "off_ms": 0, "times": 2}),
+    ("beep", [500], {"on_ms": 4, "off_ms": 2, "times": {"self": "3 if {n}.get_last_frequency() > 500 else 1"}}),
+    ("sweep", [{"self": "{n}.get_last_frequency()"}, 300], {"duration_ms": 20, "steps": 2}),
+    ("sweep", [200, 300], {"duration_ms": {"self": "40 if {n}.get_state() else 20"}, "steps": 2}),
+    ("melody", ["notify"], {"tempo": {"self": "240 if {n}.get_last_frequency() > 500 else 120"}}),
+]
+
+
+def gen_self() -> Iterator[dict]:
+    for fi, first in enumerate(SELF_FIRST):
+        for si, op in enumerate(SELF_OPS):
+            for placement in ("setup", "loop"):
+                lines = []
+                for k, o in enumerate((first, op)):
+                    lines += [f'mon.write("call {k}")', render(o, "lit", [], [])] + GETTERS
+                if placement == "setup":
+                    src = common.script(["bz = Buzzer(8)"] + lines, prologue=PRO)
+                    yield {"id": f"self:{fi}:{si}:setup", "src": src, "runs": [{"passes": 0}], "ops": [first, op], "placement": "setup"}
+                else:
+                    src = common.script(["bz = Buzzer(8)"], lines, prologue=PRO)
+                    yield {"id": f"self:{fi}:{si}:loop", "src": src, "runs": [{"passes": 2}], "ops": [first, op], "placement": "loop"}
+
+
 def generate(tier: str, only=None) -> Iterator[dict]:
+    yield from gen_self()
     all_ops = ops(tier)
     n = len(all_ops)
     core = [i for i, o in enumerate(all_ops) if (o[0] == "stop") or (o[0] == "play_tone" and o[1] in ([440], [0], [440, 50], [-5, 1])) or
@@ -392,7 +445,7 @@ def check_call(op, events: List[tuple], getters: List[str], st: dict) -> Optiona
             return err
         st["cur"] = 0.0
     elif name == "melody":
-        tempo_default, score = MELODIES[args[0]]
+        tempo_default, score = MELODIES[args[0].lower()]
         tempo = kwargs.get("tempo")
         tempo = tempo_default if (tempo is None or tempo <= 0) else float(tempo)
         beat_ms = 60000.0 / tempo
@@ -493,6 +546,7 @@ def monitor(case, dr) -> Optional[str]:
                 mine.append(("notone",))
             else:
                 mine.append(e)
+        op = _resolve_self(op, states[recv])
         err = check_call(op, mine, getters, states[recv])
         if err:
             return f"call #{k} {op[0]}: {err}"
